@@ -4,8 +4,8 @@ from common import *
 import decl, gen, pktcases, pktprops
 
 PID = 'C01'
-TARGETS = ['Properties/C01.vo', 'Bridge/FragBridge.vo', 'Bridge/MoveBridge.vo', 'Bridge/IntBridge.vo', 'Bridge/DataBridge.vo', 'Bridge/BitsBridge.vo', 'Bridge/CodegenBridge.vo']
-KERNELS = ['G1_frag', 'G3_move', 'G4_seq', 'G5_bits', 'G6_int', 'G8_data', 'G11_codegen']
+TARGETS = ['Properties/C01.vo', 'Bridge/FragBridge.vo', 'Bridge/MoveBridge.vo', 'Bridge/IntBridge.vo', 'Bridge/DataBridge.vo', 'Bridge/BitsBridge.vo', 'Bridge/CodegenBridge.vo', 'Bridge/RefBridge.vo']
+KERNELS = ['G1_frag', 'G3_move', 'G4_seq', 'G5_bits', 'G6_int', 'G8_data', 'G11_codegen', 'G16_ref', 'G16b_optional']
 PROP_FILE = 'Properties/C01.v'
 
 
